@@ -78,6 +78,7 @@ type FuncContract struct {
 	File     string
 	Line     int
 	Lets     []LetDef
+	Witnesses []WitnessDef // ghost results: witness name = expr @retN
 	Uses     []string
 	Checks   []AnchoredAssert // return-time assertions over locals (not exported to callers)
 	Pure     bool // assume func: result is a function of args only (deterministic)
@@ -88,6 +89,12 @@ type AnchoredAssert struct {
 	Anchor string // "after N" statement ordinal (top-level statements of body), or "loop N body"
 	Cl     Clause
 	Assume bool
+}
+
+type WitnessDef struct {
+	Name   string
+	Anchor string
+	E      *CExpr
 }
 
 type LetDef struct {
@@ -145,7 +152,7 @@ var directiveKW = map[string]bool{
 	"global": true, "model": true, "requires": true, "ensures": true, "assigns": true,
 	"loop": true, "inline": true, "results": true, "trusted": true, "reads": true,
 	"induction": true, "let": true, "axiom": true, "deterministic": true, "trigger": true,
-	"assert": true, "use": true, "check": true,
+	"assert": true, "use": true, "check": true, "witness": true,
 }
 
 type rawDirective struct {
@@ -349,6 +356,19 @@ func parseContractFile(path, pkg string) (*ContractFile, error) {
 				}
 				k := strings.IndexAny(rest, " \t")
 				cur.Checks = append(cur.Checks, AnchoredAssert{Anchor: rest[1:k], Cl: parseClause(strings.TrimSpace(rest[k:]))})
+			case "witness":
+				// witness name = expr @retN
+				if cur == nil {
+					perr = fail(d, "witness outside func")
+					return
+				}
+				eq := strings.Index(d.text, "=")
+				at := strings.LastIndex(d.text, "@")
+				if eq < 0 || at < eq {
+					perr = fail(d, "expected: witness name = expr @retN")
+					return
+				}
+				cur.Witnesses = append(cur.Witnesses, WitnessDef{Name: strings.TrimSpace(d.text[:eq]), Anchor: strings.TrimSpace(d.text[at+1:]), E: parseExprString(d.text[eq+1 : at])})
 			case "use":
 				if cur == nil {
 					perr = fail(d, "use outside func")
